@@ -21,6 +21,7 @@ RELS = ['IsRoot', 'SplitAt', 'StartsWith', 'StripPrefix', 'EndsWith', 'StripSuff
 ACCESS = ['IsRoot', 'Count', 'Back', 'Front']
 POINTER = ['IsRoot', 'Count', 'Back', 'Front', 'SplitFront', 'SplitAt', 'SplitBack', 'Parent', 'StripSuffix', 'StripPrefix',
            'EndsWith', 'StartsWith', 'Intersection']
+WALKS = ['ParseIndex', 'ResolveJson', 'ResolveMutJson', 'ResolveToml', 'ResolveMutToml']
 def _u(*ls):
     out = []
     for l in ls:
@@ -31,11 +32,12 @@ def _u(*ls):
 PROP_FUNCS = {
     'C01': _u(['ValidateBytes'], TOKEN, SLICE, POINTER),
     'C02': ['ValidateBytes'], 'C14': ['ValidateBytes'],
+    'C05': WALKS, 'C09': WALKS, 'C15': WALKS, 'C08': WALKS, 'C10': WALKS,
     'C03': TOKEN, 'C04': ACCESS, 'C12': _u(SLICE, SPLITS), 'C13': RELS, 'C16': INDEX,
     'C19': _u(TOKEN, SLICE, SPLITS, RELS, ACCESS),
 }
 TRANSPORT_MEMBERS = {'TransportValidate': ['ValidateBytes'], 'TransportToken': TOKEN, 'TransportSlice': SLICE, 'TransportIndex': INDEX,
-                     'TransportPointer': POINTER}
+                     'TransportPointer': POINTER, 'TransportResolve': WALKS}
 TIE_THEOREMS = {
     'ValidateBytes': ['Jp.Tie.validate_bytes_eq', 'Jp.Tie.validate_bytes_nil'], 'FromEncoded': ['Jp.Tie.from_encoded_eq'],
     'TokenNew': ['Jp.Tie.new_eq'], 'Decoded': ['Jp.Tie.decoded_eq'], 'ForLen': ['Jp.Tie.for_len_eq'],
@@ -48,6 +50,8 @@ TIE_THEOREMS = {
     'Parent': ['Jp.Tie.parent_eq'], 'StripSuffix': ['Jp.Tie.strip_suffix_eq'], 'StripPrefix': ['Jp.Tie.strip_prefix_eq'],
     'EndsWith': ['Jp.Tie.ends_with_eq'], 'StartsWith': ['Jp.Tie.starts_with_eq'],
     'Intersection': ['Jp.Tie.intersection_eq', 'Jp.Tie.intersection_loop_eq'],
+    'ParseIndex': ['Jp.Tie.parse_index_eq'], 'ResolveJson': ['Jp.Tie.resolve_json_eq', 'Jp.Tie.resolve_json_loop'],
+    'ResolveMutJson': ['Jp.Tie.resolve_mut_json_eq'], 'ResolveToml': ['Jp.Tie.resolve_toml_eq'], 'ResolveMutToml': ['Jp.Tie.resolve_mut_toml_eq'],
 }
 TRANSPORT_THEOREMS = {
     'TransportValidate': ['gen_validate_ok_iff', 'gen_validate_no_panic', 'gen_no_leading_slash_iff'],
@@ -58,6 +62,8 @@ TRANSPORT_THEOREMS = {
     'TransportIndex': ['gen_for_len_exact', 'gen_for_len_incl_exact', 'gen_for_len_unchecked_exact'],
     'TransportPointer': ['gen_starts_with_iff', 'gen_strip_prefix_iff', 'gen_strip_suffix_iff', 'gen_ends_with_iff',
                          'gen_intersection_lcp', 'gen_intersection_comm', 'gen_split_at_iff', 'gen_split_at_concat'],
+    'TransportResolve': ['gen_resolve_json', 'gen_resolve_mut_json', 'gen_resolve_toml', 'gen_resolve_mut_toml', 'gen_four_walks_agree',
+                         'gen_resolve_eq_walk', 'gen_resolve_returns_node', 'gen_every_node_addressable', 'gen_resolve_no_panic'],
 }
 ALLOWED_AXIOMS = {'propext', 'Classical.choice', 'Quot.sound'}
 
